@@ -205,6 +205,16 @@ Theorem C16_sched_first_per_gpu_bound : forall gpus spread np mp o p chosen i,
 Proof. exact sched_first_bound. Qed.
 Print Assumptions C16_sched_first_per_gpu_bound.
 
+(** CPU branch of processPending + maybeFindCPURunnerToUnload: when the model is loaded next to other runners, the
+    configuration that is loaded (NumCtx = origNumCtx * p, parallel p, p = the scheduler's parallel setting) is the one the fit
+    check was made for, and its TotalSize is within the reported free system memory *)
+Theorem C16_sched_cpu_load_fits : forall loaded g np_env emb mp o p,
+  sched_cpu loaded g np_env emb mp o = CpuLoad p ->
+  p = cpu_parallel np_env emb /\ (1 <= p)%Z /\
+  (loaded <> O -> r_total (plan_for [g] (mp p) o) <= x_free g).
+Proof. exact sched_cpu_load_fits. Qed.
+Print Assumptions C16_sched_cpu_load_fits.
+
 (** ** non-vacuity: the guard [r_ok] and the fit hypothesis are met by non-trivial cases *)
 Definition ex_gs : list gpu := [mkgpu 9000 100 [99; 117; 100; 97] []; mkgpu 400 100 [99; 117; 100; 97] []; mkgpu 5000 0 [99; 117; 100; 97] []].
 Definition ex_m : model :=
